@@ -290,7 +290,7 @@ class Unit:
         return header, body
 
     def lift_closure(self, file, path, prefix, name, sig, spec="", subs=None, rules_=DEFAULT_FN_RULES, wrap=None, props=None,
-                     attrs="", post_subs=None):
+                     attrs="", post_subs=None, nth=None, of=None):
         """R-closure: the closure literal starting with `prefix` inside fn `path` is lifted to a function `name` with signature
         `sig` (its parameters followed by its captured variables); the closure BODY text is copied unchanged."""
         if isinstance(path, str):
@@ -301,6 +301,11 @@ class Unit:
         fbody, _ = rules.strip_comments(it.body_text())
         toks = tokenize(fbody)
         hits = find_seq(toks, texts(tokenize(prefix)))
+        if nth is not None:
+            # the nth of exactly `of` closures with this prefix (both numbers must match, else the anchor is lost)
+            if len(hits) != of:
+                raise LostAnchor("closure prefix %r matches %d times in %s, expected %d" % (prefix, len(hits), path, of))
+            hits = [hits[nth]]
         if len(hits) != 1:
             raise LostAnchor("closure prefix %r matches %d times in %s" % (prefix, len(hits), path))
         plo, phi, blo, bhi, braced = closure_span(toks, hits[0])
